@@ -13,6 +13,7 @@ import (
 	"unicode"
 
 	"github.com/evolbioinfo/goalign/io"
+	"github.com/evolbioinfo/goalign/verifhook"
 )
 
 // SeqBag represents a set of unaligned sequences
@@ -556,8 +557,10 @@ func (sb *seqbag) SequencesChan() (seqs chan Sequence) {
 	seqs = make(chan Sequence, 50)
 	go func() {
 		for _, s := range sb.seqs {
+			verifhook.At("ph.f.send", s.Length(), 0)
 			seqs <- s
 		}
+		verifhook.At("ph.f.close", 0, 0)
 		close(seqs)
 	}()
 	return
